@@ -88,19 +88,31 @@ behavior Drive(v):
         while True:
             F.fp('beh')
             take F.SetProp('cnt', v)
+            do Inner(v)
     interrupt when F.fp('int', False):
         take F.SetProp('cnt', -1)
         {RT}
+
+behavior Inner(v):
+    F.fp('inner')
+    take F.SetProp('cnt', v + 0.5)
+    wait
 
 behavior Drive2(v):
     while True:
         F.fp('beh3')
         take F.SetProp('cnt', v + 1000)
 
+behavior Idle():
+    while True:
+        F.fp('idle')
+        wait
+
 behavior Other():
+    invariant: F.fp('oinv')
     while True:
         self.mut = self.mut + 1
-        wait
+        do Idle() for 2 steps
 
 behavior Other2():
     while True:
@@ -112,6 +124,11 @@ behavior Ender():
     wait
     wait
     terminate
+"""
+
+CANSEE = """wall = new Thing at (Range(-4, 4), 6), with width 4, with length 0.3, with height 3
+target = new Thing at (Range(-3, 3), 10), with width 0.7, with length 0.7
+require ego can see target
 """
 
 OVERRIDE_POOL_SUB = [
@@ -149,6 +166,7 @@ def gen_program(rng, idx):
         "initial": kind == "modular" and rng.random() < 0.5,
         "rt_random": rng.random() < 0.3,
         "param_override": rng.random() < 0.3,
+        "cansee": rng.random() < 0.3,
         "steps": 9 if kind == "modular" else 5,
     }
     rt = "x = Range(0, 1)\n        take F.SetProp('cnt', x)" if o["rt_random"] else "wait"
@@ -192,6 +210,8 @@ terminate simulation when F.fp('termsim', False)
 """
         if rng.random() < 0.4:
             src += "mutate third\n"
+        if o["cansee"]:
+            src += CANSEE
         o["subs"] = []
     else:
         names = {"ego": "a", "other": "b"}
@@ -202,7 +222,7 @@ terminate simulation when F.fp('termsim', False)
         subsub_sts = rng.sample(OVERRIDE_POOL_SUBSUB, rng.randint(1, 2)) if nested else []
         place = [rng.choice(["setup", "compose"]) for _ in sub_sts]
         main_ov = rng.random() < 0.3
-        endings = [rng.choice(["finish", "for", "until", "termwhen", "termafter", "ender"]) for _ in range(2)]
+        endings = [rng.choice(["finish", "for", "until", "termafter", "ender"]) for _ in range(2)]
         D = rng.randint(1, 3)
         o.update({"sub_statements": sub_sts, "sub_places": place, "subsub_statements": subsub_sts, "endings": endings, "main_override": main_ov, "D": D})
         src += """
@@ -225,7 +245,7 @@ monitor Mon(a, b):
                 src += "        " + _ov_stmt(st, names) + "\n"
         src += "        extra = new Thing at (F.fpv('spec', 20), 20 + n), with behavior (Ender() if mode == 'ender' else None)\n"
         src += "        require always F.fp('subreq')\n"
-        src += "        if mode == 'termwhen':\n            terminate when F.now() >= 2 + 4 * (n - 1)\n"
+        # (`terminate when` inside a sub-scenario's setup is avoided: it is turned into a requirement, a C12 matter)
         src += "        if mode == 'termafter':\n            terminate after 2 steps\n"
         src += "    compose:\n        F.fp('compose2')\n"
         for st, pl in zip(sub_sts, place):
@@ -245,7 +265,12 @@ monitor Mon(a, b):
             )
         else:
             src += "        ego = new Thing at (F.dfp('dspec', Range(-1, 1)), 0), with behavior Drive(x1), with tagp globalParameters.extra\n"
-        src += "        other = new Thing at (5, F.fpv('spec', 5)), with behavior Other(), with foo globalParameters.p2\n"
+        # N.B. locals of the top-level scenario other than `ego` are not rebound to their sampled values inside
+        # the compose block (a separate Scenic limitation), so `other` must not be random here
+        src += "        other = new Thing at (5, F.fpv('spec', 5)), with behavior Other()\n"
+        src += "        third = new Thing at (Range(-9, -8), Range(8, 9)), with foo globalParameters.p2\n"
+        if o["cansee"]:
+            src += "".join("        " + l + "\n" for l in CANSEE.strip().splitlines())
         src += "        require F.fp('req')\n        require always F.fp('always')\n        require monitor Mon(ego, other)\n"
         src += "        record F.fpv('rec', ego.cnt) as cnt\n        record initial snapshot(ego, other) as snap0\n"
         src += "        record final (snapshot(ego, other), other.mut) as fin\n"
@@ -275,7 +300,7 @@ BROKEN = {
     "infeasible": "\nbadobj = new Object at (1000, 1000)\n",
 }
 
-BOOL_TAGS = {"req", "always", "ev", "subreq", "pre", "inv", "spre", "sinv", "int", "term", "termsim", "until"}
+BOOL_TAGS = {"req", "always", "ev", "subreq", "pre", "inv", "oinv", "spre", "sinv", "int", "term", "termsim", "until"}
 VALUE_TAGS = {"default", "spec", "dspec", "rec", "late"}
 SIM_TAGS = {"sim_create", "sim_step", "sim_get", "apply"}
 
@@ -332,7 +357,6 @@ def snap_scenario(scenario):
         "ndeps": len(scenario.dependencies),
         "dyn_running": bool(ds._isRunning),
         "dyn_iter": ds._runningIterator is not None,
-        "dyn_monitors_running": [bool(m._isRunning) for m in ds._monitors],
         "namespace": ns,
     }
 
@@ -370,7 +394,7 @@ def check_pairs(log):
     return n, bad
 
 
-def pipeline(prog, ctx, seeds, fault=None, recompile=True, pristine=None, broken=None, sim_opts=None, stages=("compile", "generate", "simulate")):
+def pipeline(prog, ctx, seeds, fault=None, recompile=True, pristine=None, broken=None, sim_opts=None, stages=("compile", "generate", "simulate"), compensate=False):
     """Run compile -> generate -> simulate on the real code with `fault` armed.
 
     Returns {"dump": comparable dump, "events": [...snapshot differences...], "fired": [...], "end": ...}."""
@@ -385,15 +409,43 @@ def pipeline(prog, ctx, seeds, fault=None, recompile=True, pristine=None, broken
     out = {"dump": dump, "events": events, "end": None, "snapshots": 0}
     sim_opts = sim_opts or {}
 
+    import scenic.syntax.veneer as _veneer
+
+    flag = [_veneer.inInitialScenario]
+
     def cmp(kind, before, after):
         out["snapshots"] += 1
+        if kind.startswith("globals-"):
+            # every other global must have its import-time value; this flag is compared with its value before
+            # the operation (otherwise one stale flag would be reported after every later operation)
+            before = dict(before, inInitialScenario=flag[0])
+            flag[0] = after["inInitialScenario"]
         d = canon.all_diffs(before, after)
-        if d:
+        if d and kind.startswith("globals-"):
+            # one event per global, so that each is classified on its own
+            tops = sorted({"." + x.split(".")[1].split("[")[0] for x in d})
+            for t in tops:
+                events.append({"kind": kind, "diffs": [t], "first": f"{t}: {json.dumps(before.get(t[1:]), default=str)[:80]} != {json.dumps(after.get(t[1:]), default=str)[:80]}"})
+            if ".currentBehavior" in tops and _veneer.currentSimulation is None:
+                # show the consequence once, then compensate (otherwise every later compilation in this process fails)
+                try:
+                    scenic.scenarioFromString("ego = new Object\n")
+                    cons = "a following compilation of `ego = new Object` still works"
+                except BaseException as e:  # noqa
+                    cons = f"a following compilation of `ego = new Object` raises {type(e).__name__}: {str(e)[:80]}"
+                events[-len(tops) + tops.index(".currentBehavior")]["first"] += "; " + cons
+                _veneer.currentBehavior = None
+        elif d:
             events.append({"kind": kind, "diffs": d, "first": canon.first_diff(before, after)})
 
     # ---- compile
     if "compile" in stages and (recompile or ctx.scenario is None):
         F.PHASE = "compile"
+        if compensate:
+            # harness-side compensation of the confirmed stale-flag defect (reported where it is detected),
+            # so that the remaining cases of the program are not all dominated by it
+            _veneer.inInitialScenario = True
+            flag[0] = True
         src = prog["source"] + (BROKEN[broken] if broken else "")
         su.seed_all(seeds[0])
         try:
@@ -462,6 +514,9 @@ def pipeline(prog, ctx, seeds, fault=None, recompile=True, pristine=None, broken
         else:
             dump["simulate"] = {"result": canon.dump_result(sim), "log": list(F.LOG)}
             out["end"] = "simulate_completed" if sim is not None else "simulate_rejected"
+        import gc
+
+        gc.collect()  # suspended generators of the dead simulation are finalised now, not at some later point
         cmp("scene-after-simulation", sc0, snap_scene(scene))
         cmp("scenario-after-simulation", s0, snap_scenario(scenario))
         if pristine is not None:
@@ -520,45 +575,91 @@ def fresh_reference(prog, seeds, workdir, timeout=600):
 # classification of the confirmed defects (narrow; everything else stays unclassified)
 
 
+def _unwrap(v):
+    """observation = canon((snapshot_tuple,)) -> list of the snapshot's fields"""
+    if isinstance(v, list) and v and v[0] == "t":
+        v = v[1:]
+        if len(v) == 1 and isinstance(v[0], list) and v[0] and v[0][0] == "t":
+            v = v[0][1:]
+        return list(v)
+    return None
+
+
+def _diff_fields(pre, post):
+    a, b = _unwrap(pre), _unwrap(post)
+    if a is None or b is None or len(a) != len(b) or len(a) != len(OBS_FIELDS):
+        return ["?"]
+    return [OBS_FIELDS[i] for i in range(len(a)) if a[i] != b[i]]
+
+
+def _val(v):
+    v = str(v)
+    if v.endswith(")"):
+        return v.split("(")[0]  # behaviours are observed by class name
+    try:
+        return int(v)
+    except ValueError:
+        return v
+
+
+def _model_first_oldvals(prog, name, pre_fields):
+    """Executable model of the confirmed defect: per (scenario, object) only the old values gathered by the
+    FIRST override statement are restored when the scenario ends.  Returns the predicted observation after
+    `do <name>` ended, given the observation before it started."""
+    st = dict(zip(OBS_FIELDS, pre_fields))
+
+    def apply(statements, old):
+        for stm in statements:
+            obj = stm[0][0]
+            if obj not in old:
+                old[obj] = {f"{obj}.{p}": st[f"{obj}.{p}"] for _, p, _ in stm}
+            for _, p, v in stm:
+                st[f"{obj}.{p}"] = _val(v)
+
+    def revert(old):
+        for vals in old.values():
+            st.update(vals)
+
+    subsub = [list(map(tuple, x)) for x in (prog.get("subsub_statements") or [])]
+    if name == "SubSub":
+        old2 = {}
+        apply(subsub, old2)
+        revert(old2)
+        return [st[f] for f in OBS_FIELDS]
+    sts = [list(map(tuple, x)) for x in (prog.get("sub_statements") or [])]
+    places = prog.get("sub_places") or []
+    ordered = [x for x, pl in zip(sts, places) if pl == "setup"] + [x for x, pl in zip(sts, places) if pl == "compose"]
+    old1 = {}
+    apply(ordered, old1)
+    if subsub:
+        old2 = {}
+        apply(subsub, old2)
+        revert(old2)
+    revert(old1)
+    return [st[f] for f in OBS_FIELDS]
+
+
 def predicted_by_single_oldvals(prog, name, pre, post):
-    """Known mechanism: DynamicScenario._override keeps only the oldVals of the FIRST override statement per
-    object and scenario, so only the properties named by that first statement are restored.  Predict the
-    post-observation under that model and compare."""
-    sts = prog.get("sub_statements") if name.startswith("Sub") and name != "SubSub" else prog.get("subsub_statements")
-    if not sts:
+    """True iff the observation after `do <name>` is exactly what the first-oldVals-only model predicts
+    (and differs from the observation before)."""
+    a, b = _unwrap(pre), _unwrap(post)
+    if a is None or b is None or len(a) != len(OBS_FIELDS) or len(b) != len(OBS_FIELDS) or a == b:
         return False
-    if name != "SubSub":
-        # the nested SubSub's own damage is visible at post:Sub too; combine both levels
-        pass
-    field = {f: i for i, f in enumerate(OBS_FIELDS)}
-    expect = list(pre[1:]) if pre and pre[0] == "t" else None
-    got = list(post[1:]) if post and post[0] == "t" else None
-    if expect is None or got is None or len(expect) != len(got):
+    key = "SubSub" if name == "SubSub" else "Sub"
+    try:
+        return _model_first_oldvals(prog, key, a) == b
+    except KeyError:
         return False
-    differing = {OBS_FIELDS[i] for i in range(len(expect)) if expect[i] != got[i]}
-    allowed = set()
-
-    def leak(statements):
-        first = {}
-        for st in statements:
-            obj = st[0][0]
-            props = {p for _, p, _ in st}
-            if obj not in first:
-                first[obj] = props
-            else:
-                for p in props - first[obj]:
-                    allowed.add(f"{obj}.{p}")
-
-    leak(sts)
-    if name != "SubSub" and prog.get("subsub_statements"):
-        leak(prog["subsub_statements"])
-    return bool(differing) and differing <= allowed
 
 
 def classify_event(prog, ev):
     """Snapshot differences: only the veneer flag that is never reset is a known mechanism."""
     if ev["kind"].startswith("globals-") and ev["diffs"] == [".inInitialScenario"]:
         return "veneer.inInitialScenario-not-reset"
+    if ev["kind"] == "globals-after-simulation" and ev["diffs"] == [".currentBehavior"]:
+        # a generator suspended inside `with veneer.executeInBehavior(sub)` is finalised after endSimulation and
+        # its context manager puts the dead simulation's behaviour back into veneer.currentBehavior
+        return "veneer.currentBehavior-restored-after-endSimulation"
     return None
 
 
@@ -568,17 +669,21 @@ def classify_event(prog, ev):
 def plan(tier, seed):
     n = 16 if tier == "quick" else 64
     return [
-        {"shard": i, "programs": 3 if tier == "quick" else 8, "max_cases": 55 if tier == "quick" else 330, "timeout": 1500 if tier == "quick" else 6000}
+        {"shard": i, "programs": 3 if tier == "quick" else 10, "max_cases": 60 if tier == "quick" else 300, "max_compile": 6 if tier == "quick" else 16, "timeout": 1800 if tier == "quick" else 7000}
         for i in range(n)
     ]
 
 
-def fault_points(prog, counts, rng, max_cases):
-    """All (tag, k, mode) with k in {1, 2, middle, last}; sampled down to the budget, one per tag first."""
+def fault_points(prog, counts, rng, max_cases, max_compile=8):
+    """All (tag, k, mode) with k in {1, 2, middle, last}; sampled down to the budget, every tag first.
+    Points whose tag is evaluated during compilation need a compilation each, so they are capped separately."""
     per_tag = {}
+    compile_tags = set()
     for key, c in counts.items():
-        tag = key.split(":", 1)[1]
+        ph, tag = key.split(":", 1)
         per_tag[tag] = per_tag.get(tag, 0) + c
+        if ph == "compile":
+            compile_tags.add(tag)
     pts = []
     for tag, c in sorted(per_tag.items()):
         ks = sorted({1, 2, (c + 1) // 2, c} & set(range(1, c + 1)))
@@ -586,7 +691,6 @@ def fault_points(prog, counts, rng, max_cases):
             for m in modes_for(tag):
                 pts.append((tag, k, m))
     rng.shuffle(pts)
-    # make sure every tag is represented before filling up
     seen, first, rest = set(), [], []
     for p in pts:
         if p[0] not in seen:
@@ -594,11 +698,19 @@ def fault_points(prog, counts, rng, max_cases):
             first.append(p)
         else:
             rest.append(p)
-    chosen = (first + rest)[:max_cases]
+    chosen, ncomp = [], 0
+    for p in first + rest:
+        if p[0] in compile_tags:
+            if ncomp >= max_compile:
+                continue
+            ncomp += 1
+        chosen.append(p)
+        if len(chosen) >= max_cases:
+            break
     return chosen, len(pts)
 
 
-def run_case(prog, ctx, seeds, fault, ref, pristine, followups, rng, res, bump, broken=None, sim_opts=None, recompile=False):
+def run_case(prog, ctx, seeds, fault, ref, pristine, followups, rng, res, bump, broken=None, sim_opts=None, recompile=False, compensate=True):
     """One fault case + follow-ups.  Appends violations to res."""
     from rt import canon, su
 
@@ -611,7 +723,10 @@ def run_case(prog, ctx, seeds, fault, ref, pristine, followups, rng, res, bump, 
             w.update(extra)
         viols.append({"key": key, "what": what, "witness": w})
 
-    out = pipeline(prog, ctx, seeds, fault=fault, recompile=recompile or broken is not None, pristine=pristine, broken=broken, sim_opts=sim_opts)
+    out = pipeline(
+        prog, ctx, seeds, fault=fault, recompile=recompile or broken is not None, pristine=pristine, broken=broken, sim_opts=sim_opts,
+        compensate=compensate,
+    )
     res["evaluations"] += 1
     bump("cases")
     bump("snapshots_compared", out["snapshots"])
@@ -646,7 +761,7 @@ def run_case(prog, ctx, seeds, fault, ref, pristine, followups, rng, res, bump, 
     bump("override_pairs_checked", out.get("pairs", 0))
     for name, pre, post in out.get("bad_pairs", []):
         key = "override.only-first-oldvals-per-object-reverted" if predicted_by_single_oldvals(prog, name, pre, post) else None
-        fields = [OBS_FIELDS[i - 1] for i in range(1, min(len(pre), len(post))) if pre[i] != post[i]] if len(pre) == len(post) else ["?"]
+        fields = _diff_fields(pre, post)
         bump("override_pairs_bad")
         add(
             key,
@@ -660,7 +775,7 @@ def run_case(prog, ctx, seeds, fault, ref, pristine, followups, rng, res, bump, 
         if fu == "resimulate":
             if ctx.scene is None or ctx.scenario is None:
                 continue
-            ref_scene = (ref["dump"].get("generate") or {}).get("scene") if isinstance(ref["dump"].get("generate"), dict) else None
+            ref_scene = ref["dump"]["generate"].get("scene") if isinstance(ref["dump"].get("generate"), dict) else None
             mine = canon.dump_scene(ctx.scene)
             o2 = pipeline(prog, ctx, seeds, None, recompile=False, pristine=pristine, stages=("simulate",))
             bump("followup_resimulate")
@@ -671,8 +786,8 @@ def run_case(prog, ctx, seeds, fault, ref, pristine, followups, rng, res, bump, 
                 bump("followup_resimulate_compared")
                 if d:
                     add(None, f"(c) re-simulating the same scene after the faulted run differs from a fresh process at {d}; {tagdesc}")
-            elif not prog["rt_random"] or True:
-                # scene differs from the fresh one (the fault changed sampling): compare two clean re-runs with each other
+            else:
+                # the scene differs from the fresh one (the fault changed sampling): two clean re-runs must agree
                 o3 = pipeline(prog, ctx, seeds, None, recompile=False, pristine=pristine, stages=("simulate",))
                 bump("followup_resimulate_selfcompared")
                 d = canon.first_diff(o2["dump"].get("simulate"), o3["dump"].get("simulate"))
@@ -681,6 +796,7 @@ def run_case(prog, ctx, seeds, fault, ref, pristine, followups, rng, res, bump, 
         elif fu == "regenerate":
             if ctx.scenario is None:
                 continue
+            stale = _stale_binding(ctx.scenario)
             o2 = pipeline(prog, ctx, seeds, None, recompile=False, pristine=pristine, stages=("generate", "simulate"))
             bump("followup_regenerate")
             bump("snapshots_compared", o2["snapshots"])
@@ -689,7 +805,18 @@ def run_case(prog, ctx, seeds, fault, ref, pristine, followups, rng, res, bump, 
             b = {k: o2["dump"].get(k) for k in ("generate", "simulate")}
             d = canon.first_diff(a, b)
             if d:
-                add(None, f"(c) re-generating + simulating from the same scenario after the faulted run differs from a fresh process at {d}; {tagdesc}")
+                key = None
+                if stale:
+                    # mechanism check: undo what DynamicScenario._bindTo did for the last simulation, repeat
+                    _unbind(ctx.scenario)
+                    o3 = pipeline(prog, ctx, seeds, None, recompile=False, pristine=None, stages=("generate", "simulate"))
+                    if canon.first_diff(a, {k: o3["dump"].get(k) for k in ("generate", "simulate")}) is None:
+                        key = "simulation.scenario-stays-bound-to-simulated-scene"
+                add(
+                    key,
+                    f"(c) re-generating + simulating from the same scenario after the faulted run differs from a fresh process at {d}; "
+                    f"scenario still bound to the objects of the last simulated scene={stale}; {tagdesc}",
+                )
         elif fu == "recompile":
             import scenic.syntax.veneer as veneer
 
@@ -703,12 +830,25 @@ def run_case(prog, ctx, seeds, fault, ref, pristine, followups, rng, res, bump, 
                 key = None
                 if "initial scenario" in prog["source"] and was is False:
                     # mechanism check: the same recompilation with the stale flag put back to its import-time value
-                    veneer.inInitialScenario = True
-                    o3 = pipeline(prog, ctx, seeds, None, recompile=True, pristine=None)
+                    o3 = pipeline(prog, ctx, seeds, None, recompile=True, pristine=None, compensate=True)
                     if canon.first_diff(ref["dump"], o3["dump"]) is None:
                         key = "veneer.inInitialScenario-not-reset"
                 add(key, f"(c) re-compiling + generating + simulating after the faulted run differs from a fresh process at {d}; veneer.inInitialScenario was {was} before the compile; {tagdesc}")
+                if ctx.scenario is None or key is None:
+                    pipeline(prog, ctx, seeds, None, recompile=True, pristine=None, stages=("compile",), compensate=True)
     return out
+
+
+def _stale_binding(scenario):
+    ds = scenario.dynamicScenario
+    objs = list(scenario.objects)
+    return any(all(o is not p for p in objs) for o in ds._objects) or (ds._ego is not scenario.egoObject)
+
+
+def _unbind(scenario):
+    ds = scenario.dynamicScenario
+    ds._objects = list(scenario.objects)
+    ds._ego = scenario.egoObject
 
 
 def _follow_events(prog, o2, add, name, tagdesc):
@@ -754,7 +894,7 @@ def run_shard(spec):
                 continue
             bump("fresh_references")
             bump("program_" + prog["kind"])
-            for f in ("mode2D", "model", "initial", "rt_random", "param_override"):
+            for f in ("mode2D", "model", "initial", "rt_random", "param_override", "cansee"):
                 if prog[f]:
                     bump("program_with_" + f)
             if ref["end"] != "simulate_completed":
@@ -763,51 +903,54 @@ def run_shard(spec):
                 res["violations"].append({"key": classify_event(prog, ev), "what": f"(a) in a fresh process, clean run: {ev['kind']} differs at {ev['diffs'][:6]} ({ev['first']})", "witness": {"prog": prog, "seeds": seeds, "fault": None}})
             ctx = Ctx()
             # clean traced run in this (used) process: itself a recompile follow-up of everything before
-            out = run_case(prog, ctx, seeds, None, ref, pristine, [], rng, res, bump, recompile=True)
-            d = None
+            import scenic.syntax.veneer as veneer
+
             from rt import canon
 
+            was = veneer.inInitialScenario
+            out = run_case(prog, ctx, seeds, None, ref, pristine, [], rng, res, bump, recompile=True, compensate=False)
             d = canon.first_diff(ref["dump"], out["dump"])
             bump("clean_runs")
             if d:
-                import scenic.syntax.veneer as veneer
-
                 key = None
-                if "initial scenario" in prog["source"]:
-                    veneer.inInitialScenario = True
-                    o3 = pipeline(prog, ctx, seeds, None, recompile=True, pristine=None)
+                if "initial scenario" in prog["source"] and was is False:
+                    o3 = pipeline(prog, ctx, seeds, None, recompile=True, pristine=None, compensate=True)
                     if canon.first_diff(ref["dump"], o3["dump"]) is None:
                         key = "veneer.inInitialScenario-not-reset"
+                        out = o3
                 res["violations"].append(
                     {
                         "key": key,
-                        "what": f"(c) clean compile+generate+simulate in a process that ran other programs before differs from a fresh process at {d}",
+                        "what": f"(c) clean compile+generate+simulate in a process that ran other programs before differs from a fresh process at {d}; veneer.inInitialScenario was {was} before the compile",
                         "witness": {"prog": prog, "seeds": seeds, "fault": None, "followups": ["recompile"], "history": "earlier programs of the shard"},
                     }
                 )
             counts = out.get("phase_counts") or {}
             for k2, c in counts.items():
                 bump("hits_" + k2.split(":")[0], c)
-            pts, total = fault_points(prog, counts, rng, spec["max_cases"])
+            pts, total = fault_points(prog, counts, rng, spec["max_cases"], spec.get("max_compile", 8))
             bump("fault_points_available", total)
             if len(res["samples"]) < 2:
                 res["samples"].append({"program": prog["source"], "model": prog.get("model_source"), "options": {"mode2D": prog["mode2D"], "params": prog["params"]}, "fault_points_sample": [list(p) for p in pts[:6]], "tags": sorted({p[0] for p in pts})})
             fus = ["resimulate", "regenerate", "recompile"]
             for ci, fault in enumerate(pts):
-                if ci % 7 == 6:
-                    followups = list(fus)
+                # re-compilation is the expensive follow-up: every 6th case; the others alternate
+                if ci % 6 == 5:
+                    followups = ["recompile"]
+                elif ci % 12 == 4:
+                    followups = ["resimulate", "regenerate"]
                 else:
-                    followups = [fus[ci % 3]]
+                    followups = [fus[ci % 2]]
                 sim_opts = None
                 if ci % 5 == 3:
                     sim_opts = {"maxIterations": 2}
                 elif ci % 5 == 4:
                     sim_opts = {"raiseGuardViolations": True}
                 compile_phase = any(k2 == "compile:" + fault[0] for k2 in counts)
-                run_case(prog, ctx, seeds, fault, ref, pristine, followups, rng, res, bump, sim_opts=sim_opts, recompile=compile_phase or ci % 4 == 0)
+                run_case(prog, ctx, seeds, fault, ref, pristine, followups, rng, res, bump, sim_opts=sim_opts, recompile=compile_phase)
                 if ctx.scenario is None:
                     # a failed compile leaves nothing to reuse: rebuild for the next case (that is a follow-up too)
-                    pipeline(prog, ctx, seeds, None, recompile=True, pristine=None, stages=("compile",))
+                    pipeline(prog, ctx, seeds, None, recompile=True, pristine=None, stages=("compile",), compensate=True)
             for broken in BROKEN:
                 run_case(prog, ctx, seeds, None, ref, pristine, ["recompile"], rng, res, bump, broken=broken)
     finally:
@@ -846,7 +989,7 @@ def replay(w):
             return [{"key": None, "what": "reference failed: " + str(err), "witness": w}]
         ctx = Ctx()
         if not w.get("broken"):
-            pipeline(prog, ctx, seeds, None, recompile=True, pristine=None, stages=("compile",))
+            pipeline(prog, ctx, seeds, None, recompile=True, pristine=None, stages=("compile",), compensate=True)
         run_case(
             prog, ctx, seeds, tuple(w["fault"]) if w.get("fault") else None, ref, pristine, w.get("followups") or ["resimulate", "regenerate", "recompile"],
             random.Random(0), res, lambda k, n=1: None, broken=w.get("broken"), sim_opts=w.get("sim_opts"), recompile=bool(w.get("recompile")),
